@@ -369,18 +369,18 @@ def oracle(prog, verdict, log):
         if e[0] in "LF":
             last_state = e[1]
             check_state(e[1], e[0])
-            for q in e[1]["q"]:
-                parts = q.split(":")
-                try:
-                    if e[1]["s"][int(parts[0])] != int(parts[-1]):
-                        stats["stale_tasks_in_runq"] += 1
-                except (ValueError, IndexError):
-                    pass
             continue
         if e[0] == "B":
             _, f, i, st = e
             last_state = st
             check_state(st, "B %d %d" % (f, i))
+            for q in st["q"]:      # a task whose expected sched_id is no longer its fiber's: the filter must drop it
+                parts = q.split(":")
+                try:
+                    if st["s"][int(parts[0])] != int(parts[-1]):
+                        stats["stale_tasks_in_runq"] += 1
+                except (ValueError, IndexError):
+                    pass
             if f >= len(fibers) or i >= len(fibers[f]):
                 fails.append(("malformed-log", "B for unknown op %d %d" % (f, i)))
                 continue
